@@ -131,6 +131,7 @@ RawKids(var) ==
    IF var \in {0, 1} THEN <<>>
    ELSE IF var = 2 THEN <<EX("any", <<>>, <<>>)>>
    ELSE IF var = 3 THEN <<EX("not_one", <<>>, <<120>>)>>
+   ELSE IF var = 5 THEN <<EX("any", <<>>, <<>>), EX("any", <<>>, <<>>)>>
    ELSE <<EX("one", <<>>, <<97>>), EX("opt", <<EX("one", <<>>, <<98>>)>>, <<>>)>>
 RawP(var) == IF var = 1 THEN <<123, 42, 125>> ELSE <<91, 61, 93>>
 Raw(r, idx) ==
